@@ -226,11 +226,9 @@ def euler_rotation_matrix(
             matrix[..., 2, 1] = s[..., 1] * c[..., 2]
             matrix[..., 2, 2] = c[..., 1]
         else:
-            matrix[..., 0, 0] = 1
-            matrix[..., 1, 1] = 1
-            matrix[..., 2, 2] = 1
+            rotation = matrix[..., :3]
             for i, char in enumerate(order):
-                rot = matrix.new_empty(matrix.shape)
+                rot = matrix.new_empty(matrix.shape[:-1] + (3,))
                 if char == "X":
                     rot[..., 0, 0] = 1
                     rot[..., 0, 1] = 0
@@ -261,7 +259,8 @@ def euler_rotation_matrix(
                     rot[..., 2, 0] = 0
                     rot[..., 2, 1] = 0
                     rot[..., 2, 2] = 1
-                matrix = rot if i == 0 else torch.matmul(matrix, rot)
+                rotation = rot if i == 0 else torch.matmul(rotation, rot)
+            matrix[..., :3] = rotation
     else:
         raise ValueError(
             f"Expected 'angles' to be scalar or tensor with last dimension size 3, got {N}"
